@@ -28,4 +28,11 @@ PROPS = {
         "units": ["Gate", "ServerCalls", "Consts"],
         "assumptions": ["requests with unknown type bytes are not dispatched (C07)", "sandbox runs as uid 0: permission outcomes are compared between runs, not against constants"],
     },
+    "C16": {
+        "technique": "listing_exact for every legal ListAt behaviour by induction on remaining entries; all sizes x batch sizes x EOF/short-batch behaviours end to end",
+        "level_text": "Lean theorems listing_exact / listing_terminates / os_lister_legal / example_lister_legal: for all entry lists, all batch sizes >= 1 and every lister behaviour satisfying the ListerAt contract (EOF with the last entries or on the next call, short batches), the client loop over the server's filelist step returns each entry exactly once in order minus '.' and '..' with the server's attributes within |entries|+1 round trips; necessity witnesses for each configuration fact. Correspondence: Client.ReadDir against a real RequestServer with a scripted lister for every size 0..2*batch+2, batch 1..5, and against the os-backed server on real directories around the 128-entry batch, compared with the model's output (entries, rounds, error).",
+        "level_note": "Trusted: Lean kernel; the abstraction of NAME/STATUS packets to (entries | status) (codec is C06/C08); os.File.Readdir(128) assumed to honour its contract (observed on real directories). Names containing '/' are rewritten by path.Base in the client (documented in listing_exact via pathBase; impossible for real directories).",
+        "units": [],
+        "assumptions": ["MaxFilelist >= 1", "lister honours the ListerAt contract (Legal)"],
+    },
 }
